@@ -15,6 +15,13 @@ C->S  Trace_ECDSA: the library's Public_key.verifies / Private_key.sign / Signin
       sys.settrace line event, every position inside PointJacobi._maybe_precompute), then ordinary calls on the same
       objects are judged as usual; on real curves an interrupted key generation on a fresh Curve object, then key
       generation + sign_deterministic + verification judged by OpenSSL / the independent RFC 6979.
+      Constructors: SigningKey.from_secret_exponent / from_string / from_der / from_pem (ssleay and pkcs8) / generate and
+      VerifyingKey.from_string / from_der / from_pem / from_public_point / from_public_key_recovery, each WITH a non-default
+      hashfunc and then used WITHOUT a per-call hash (OpenSSL dgst -<hash> -verify, independent RFC 6979).
+      Buffer forms: bytes, bytearray, memoryview, array('B'/'H'/'I'), memoryview.cast('H'), memoryview(array('I')) -- all
+      accepted by the unchanged library -- for the data / digest arguments of sign*, verify*, each judged like bytes.
+      Hash pairs: sign_digest_deterministic(digest of hash A, HMAC-DRBG hash B), sizes differing, against the independent
+      RFC 6979 implementation.
       Trace_ECOracle: the 17 shipped curves x SHA-1..SHA-512 x encodings: library signs -> OpenSSL verifies,
       OpenSSL signs -> library verifies, every tampered message / signature / key judged by both, out-of-range and
       malformed signatures, and RFC 6979 signatures rebuilt from an independent nonce generator + OpenSSL's k*G."""
